@@ -629,10 +629,12 @@ func secondDataSlab(ps *atree.PersistentSlabStorage, root atree.Slab) atree.Slab
 }
 
 // danglingNext: links that lead nowhere (or to a slab of another kind) on a committed storage:
-//   removed / physical  the SECOND data slab of the array and of the map is removed (pending removal / register
-//                       deleted from the ledger and the containers reopened): dangling next link and child link
-//   value-slabs         every large-value slab (StorableSlab) is removed: dangling element references
-//   wrong-kind          the second data slab's identifier holds a slab of the OTHER container kind
+//
+//	removed / physical  the SECOND data slab of the array and of the map is removed (pending removal / register
+//	                    deleted from the ledger and the containers reopened): dangling next link and child link
+//	value-slabs         every large-value slab (StorableSlab) is removed: dangling element references
+//	wrong-kind          the second data slab's identifier holds a slab of the OTHER container kind
+//
 // Requests that have to follow the link must report SlabNotFound (SlabData for the wrong kind) - never
 // panic, never succeed; the loaded-value flavours skip what is not there.  Nothing is written.
 func (x *cbx) danglingNext() {
